@@ -90,6 +90,14 @@ def check_conversions(run, drv, tm, ncases):
         reps.append(("iso_offset", iso(local, zone_str(off, "num"), not whole or rng.random() < 0.3), us))
         reps.append(("iso_Z", iso(utc_dt, "Z", not whole or rng.random() < 0.3), us))
         reps.append(("iso_naive", iso(utc_dt, "", not whole), us))
+        # a fraction spelled with 1..5 digits (".5", ".250", millisecond strings): the digits are the leading decimals
+        nd = rng.randint(1, 5)
+        fv = rng.randrange(10 ** nd)
+        us_short = (us // 1_000_000) * 1_000_000 + fv * 10 ** (6 - nd)
+        loc_short = (EPOCH + us_short * US).astimezone(tz)
+        zone = rng.choice([zone_str(off, "num"), "Z", ""])
+        base_short = loc_short if zone not in ("Z", "") else EPOCH + us_short * US
+        reps.append(("iso_short_fraction", base_short.strftime("%Y-%m-%dT%H:%M:%S") + "." + str(fv).zfill(nd) + zone, us_short))
         if whole:
             reps.append(("epoch_int", us // 1_000_000, us))
             reps.append(("dt64_s", np.datetime64(us // 1_000_000, "s"), us))
